@@ -396,6 +396,8 @@ pub fn run_case(ctx: &mut CaseCtx) -> CaseResult {
         8 if ctx.case % 20 == 18 => return name_too_long_case(ctx),
         8 => return blocked_target_case(ctx),
         9 => return rlimit_case(ctx),
+        // failures of the system calls themselves, injected by strace (p_c19s.rs)
+        7 => return crate::p_c19s::run_case(ctx),
         _ => {}
     }
     let (cfg, ops, t0) = gen(&mut ctx.rng, &ctx.dir, ctx.thorough);
